@@ -38,7 +38,7 @@ def _replay(task):
     """-> (text, outcome, submitted statements seen by the grammar, reported comments)"""
     beh, seed, ctor, run, nl = task
     lib = C._import_lib()
-    from simple_ddl_parser import _verif
+    _verif = C.hooks()
     ev = []
     _verif.sink = ev.append
     text = A.render(beh, beh["stmts"], seed)
